@@ -1,3 +1,4 @@
+import re
 from typing import final
 from typing_extensions import Self
 from . import base
@@ -7,10 +8,9 @@ from .internal import value_properties as _value_properties
 
 
 def _splitlines(s: str) -> list[str]:
-    lines = s.splitlines(keepends=True)
-    if not lines or lines[-1].endswith('\n'):
-        lines.append('')
-    return lines
+    # Split after '\n' only: str.splitlines also splits at '\r', form feed, NEL, U+2028 etc.,
+    # which are ordinary characters inside a comment line for the lexer.
+    return re.split(r'(?<=\n)', s)
 
 
 @_registry.token_model
